@@ -1,7 +1,11 @@
 ---------------------------- MODULE Trace_CoLocal ----------------------------
 (* Observable layer of property C25: validates traces of the real            *)
 (* CoroutineLocal (through real Coroutine objects) recorded by               *)
-(* harness/src/bin/colocal.rs.  Values are drop-counting tokens.             *)
+(* harness/src/bin/colocal.rs.  Values are drop-counting tokens; key k2      *)
+(* holds values without drop glue, whose release is observed through the     *)
+(* allocator (`mem`: live blocks of their size): after a coroutine is        *)
+(* dropped exactly the values still stored in the living ones occupy memory  *)
+(* (clause plain_leak).                                                      *)
 EXTENDS Naturals, Sequences, FiniteSets, TLC, Json, IOUtils
 
 Rec == ndJsonDeserialize(IOEnv.TRACE)
@@ -31,8 +35,8 @@ Step ==
             /\ (bad => Viol("put_ret", <<r.co, r.key, V(r.ret), old>>))
             /\ nviol' = nviol + Count(bad)
             /\ store' = [store EXCEPT ![r.co][r.key] = [id |-> r.id, tag |-> 0]]
-            /\ held' = IF r.ret.id = 0 THEN held ELSE held \cup {r.ret.id}
-            /\ seen' = seen \cup {r.id}
+            /\ held' = IF r.ret.id = 0 \/ r.key = "k2" THEN held ELSE held \cup {r.ret.id}
+            /\ seen' = IF r.key = "k2" THEN seen ELSE seen \cup {r.id}
             /\ UNCHANGED <<scen, alive, drops>>
        [] ev = "get" ->
             LET bad == V(r.ret) # store[r.co][r.key] IN
@@ -50,13 +54,19 @@ Step ==
             /\ (bad => Viol("remove_ret", <<r.co, r.key, V(r.ret), old>>))
             /\ nviol' = nviol + Count(bad)
             /\ store' = [store EXCEPT ![r.co][r.key] = None]
-            /\ held' = IF r.ret.id = 0 THEN held ELSE held \cup {r.ret.id}
+            /\ held' = IF r.ret.id = 0 \/ r.key = "k2" THEN held ELSE held \cup {r.ret.id}
             /\ UNCHANGED <<scen, alive, drops, seen>>
        [] ev = "drop_co" ->
             \* the values still stored move to "must be dropped": they are neither stored nor held any more
             /\ alive' = [alive EXCEPT ![r.co] = FALSE]
             /\ store' = [store EXCEPT ![r.co] = [k \in Keys |-> None]]
             /\ UNCHANGED <<scen, drops, held, seen, nviol>>
+       [] ev = "mem" ->
+            LET expect == Cardinality({c \in DOMAIN store : alive[c] /\ store[c]["k2"] # None})
+                bad == r.live # expect
+            IN /\ (bad => Viol("plain_leak", <<r.live, expect>>))
+               /\ nviol' = nviol + Count(bad)
+               /\ UNCHANGED <<scen, store, alive, drops, held, seen>>
        [] ev = "dropped" ->
             LET i == r.id
                 b1 == i \in Stored \/ i \in held
